@@ -349,7 +349,11 @@ def _trace_check(ctx, base):
                 r["data"] = PROPFIND_BODY
         else:
             name = rng.choice([s, "../decoy.txt", "..", ".", "a/b", ".Radicale.cache", "$(touch %s/pwned)" % base, "`touch %s/pwned`" % base,
-                               "a;touch %s/pwned" % base, "a'b", 'a"b', "a b", "a\nb", "-n", "a|b", "a&b", "$HOME", "x~", ".x"])
+                               "a;touch %s/pwned" % base, "a'b", 'a"b', "a b", "a\nb", "-n", "a|b", "a&b", "$HOME", "x~", ".x",
+                               # text that means something to the hook's template expansion: a value substituted for one
+                               # placeholder must never be scanned again for another (two channels cooperating: the login
+                               # names a placeholder, the path of the same request carries the shell syntax)
+                               "%(path)s", "x%(path)sy", "%(cwd)s", "%(user)s", "%s", "%%(path)s", "%(nope)s", "%", "{path}", "${path}"])
             if ":" in name:
                 name = name.replace(":", "_")
             r = dict(method=rng.choice(["PROPFIND", "MKCALENDAR", "PUT"]), path="/%s/calx/" % name.strip("/"), login=name + ":",
@@ -359,6 +363,8 @@ def _trace_check(ctx, base):
                 r["path"] = "/"
             if r["method"] == "PUT":
                 r["path"] = "/%s/calx/z.ics" % name.strip("/")
+                if "%" in name or "{" in name:
+                    r["path"] = "/%s/calx/z;touch %s;.ics" % (name.strip("/"), os.path.join(base, "pwned"))
                 r["data"] = EVENT % "z"
         r["mark"] = "h%d-%s" % (i, ch)
         r["channel"] = ch
@@ -382,6 +388,15 @@ def _trace_check(ctx, base):
         hostile.append(dict(method="MOVE", path="/user/cal/mvr%d.ics" % k, login="user:", mark="hr%d-dest" % k, channel="dest", hostile=rn,
                             headers={"HTTP_DESTINATION": "http://127.0.0.1" + rn, "HTTP_HOST": "127.0.0.1", "HTTP_OVERWRITE": "T"}))
         k += 1
+    # every template placeholder as a login, together with shell syntax in the path of the same request (two
+    # channels that are harmless alone)
+    for ph in ("%(path)s", "x%(path)sy", "%(cwd)s", "%(user)s", "%s", "%(nope)s"):
+        for m in ("MKCALENDAR", "PUT"):
+            pth = "/%s/c;touch %s;/" % (ph, os.path.join(base, "pwned")) if m == "MKCALENDAR" else \
+                "/%s/calx/z;touch %s;.ics" % (ph, os.path.join(base, "pwned"))
+            hostile.append(dict(method=m, path=pth, data=EVENT % "ph" if m == "PUT" else None, login=ph + ":", mark="hr%d-login" % k,
+                                channel="login", hostile=ph))
+            k += 1
     hostile += random_hostile
     reqs += hostile
     spec = os.path.join(base, "spec.json")
